@@ -246,14 +246,21 @@ func (cs *clientStream) CloseSend() error {
 		// As in SendMsg: the stream is aborted. The generated code gives the
 		// call up on this error, and nobody else would release the stream.
 		// It ends as a failure, whatever the read loop still finds queued.
-		cs.protected.Lock()
-		if !cs.protected.done {
-			cs.protected.eErr = err
-		}
-		cs.protected.Unlock()
-		cs.teardown(false)
+		cs.abort(err)
 	}
 	return err
+}
+
+// abort ends the stream because of a local failure (a send the transport
+// refused, a message which cannot be encoded or decoded). It ends as that
+// failure, whatever the read loop still finds queued.
+func (cs *clientStream) abort(err error) {
+	cs.protected.Lock()
+	if !cs.protected.done {
+		cs.protected.eErr = err
+	}
+	cs.protected.Unlock()
+	cs.teardown(false)
 }
 
 // Context returns the context for this stream.
@@ -295,7 +302,7 @@ func (cs *clientStream) SendMsg(m interface{}) error {
 
 	body, err := cs.codec.Marshal(m)
 	if err != nil {
-		cs.teardown(false)
+		cs.abort(err)
 		return err
 	}
 	rpc := goatorepo.Rpc{
@@ -333,7 +340,7 @@ func (cs *clientStream) SendMsg(m interface{}) error {
 				return rErr
 			}
 		}
-		cs.teardown(false)
+		cs.abort(err)
 		return err
 	}
 
@@ -388,7 +395,7 @@ func (cs *clientStream) RecvMsg(m interface{}) error {
 			// As documented above, the stream is aborted on any such error.
 			// Leaving it registered would let its unread responses block the
 			// connection's read loop for good.
-			cs.teardown(false)
+			cs.abort(err)
 			return err
 		}
 		for _, sh := range cs.statsHandlers {
